@@ -14,6 +14,11 @@ type Options struct {
 	LookbackDelta time.Duration
 
 	StepsBatch int64
+
+	// SelectTimestamps makes vector selectors yield the timestamp (in milliseconds)
+	// of the selected sample instead of its value. It is set for the selector that
+	// is the direct argument of timestamp().
+	SelectTimestamps bool
 }
 
 func (o *Options) NumSteps() int {
@@ -27,6 +32,12 @@ func (o *Options) NumSteps() int {
 		return int(o.StepsBatch)
 	}
 	return int(totalSteps)
+}
+
+func (o *Options) WithSelectTimestamps(enabled bool) *Options {
+	result := *o
+	result.SelectTimestamps = enabled
+	return &result
 }
 
 func (o *Options) WithEndTime(end time.Time) *Options {
